@@ -912,7 +912,7 @@ def ec_base(kid):
     cv = curve(name)
     r = random.Random("%d/c05/ec-base/%s" % (SEED, kid))
     if cv.kind == "ws":
-        d = 1 if size == "one" else (r.getrandbits(20) | (1 << 19)) if size == "short" else r.randrange(1 << (cv.n.bit_length() - 2), cv.n)
+        d = 1 if size == "one" else (r.getrandbits(12) | (1 << 11)) if size == "short" else r.randrange(1 << (cv.n.bit_length() - 2), cv.n)
         Q, _ = mul_links(cv, d)
         t = {"c": name, "enc": name, "d": d, "x": Q[0], "y": Q[1]}
     elif cv.kind == "ed":
